@@ -636,33 +636,30 @@ fn scan_value(src: &str, i: usize, rx: u32) -> Option<usize> {
             }
         }
     }
-    // defect model; single-byte skips are only modelled over ASCII
-    let skip = |k: usize| -> Option<usize> {
-        match src.as_bytes().get(k) {
-            Some(c) if c.is_ascii() => Some(k + 1),
-            Some(_) => None,
-            None => Some(k + 1),
-        }
-    };
-    let mut k = skip(i)?;
+    // defect model, on bytes as the scanner under test works (a multi-byte character counts as several bytes): the
+    // first byte, the byte after a hyphen and the last byte are not validated
+    let b = src.as_bytes();
+    if i >= b.len() {
+        return None;
+    }
+    let mut k = i + 1;
     loop {
-        let (ch, nx) = char_at(src, k)?;
-        let following = char_at(src, nx);
-        if following.map(|x| x.0) == Some(']') {
-            return Some(nx);
+        let ch = *b.get(k)?;
+        if b.get(k + 1) == Some(&b']') {
+            return Some(k + 1);
         }
-        if ch == '-' {
-            let (_, after) = following?;
-            if !char_at(src, after).is_some_and(|x| x.0.is_ascii_alphanumeric()) {
+        if ch == b'-' {
+            b.get(k + 1)?;
+            if !b.get(k + 2).is_some_and(|c| c.is_ascii_alphanumeric()) {
                 return None;
             }
-            k = skip(nx)?;
+            k += 2;
             continue;
         }
         if !ch.is_ascii_alphanumeric() {
             return None;
         }
-        k = nx;
+        k += 1;
     }
 }
 
